@@ -53,6 +53,11 @@ IsValidId(b) ==
     \/ Len(b) \in {34, 38} /\ b[1] = 123 /\ b[Len(b)] = 125 /\ IsBare(SubSeq(b, 2, Len(b) - 1))
     \/ Len(b) \in {41, 45} /\ SubSeq(b, 1, 9) = UrnPrefix /\ IsBare(SubSeq(b, 10, Len(b)))
 
+IdForm(b, k) ==
+    CASE k = "upper"  -> [i \in DOMAIN b |-> IF b[i] \in 97..102 THEN b[i] - 32 ELSE b[i]]
+      [] k = "braces" -> <<123>> \o b \o <<125>>
+      [] k = "urn"    -> UrnPrefix \o b
+
 NeedsGen(d) == ~ObjHas(d[2], IdKey) \/ ObjLookup(d[2], IdKey) = <<"str", <<>>>>
 
 ValidDoc(d) ==
@@ -67,6 +72,8 @@ ApplyUpd(d, u) ==
     CASE u[1] \in {"set", "setInPlace"} -> Set(d, u[2], u[3])
       [] u[1] \in {"unset", "unsetInPlace"} -> Unset(d, u[2])
       [] u[1] = "id"     -> d
+      \* rewrites _id as another textual form of the same UUID: a different id all the same
+      [] u[1] = "idform" -> Set(d, IdKey, <<"str", IdForm(DocId(d), u[2])>>)
       [] u[1] = "nil"    -> Absent                    \* updater returns nil: delete
       [] u[1] = "setall" -> SetAll(d, u[2])           \* DB.Update(q, map)
       [] u[1] \in {"append", "appendInPlace"} ->
